@@ -259,18 +259,28 @@ impl FileWatcher {
         for event in events {
             let links = &self.links_file_watch;
 
-            let mut paths_iterator = event.event.paths.iter().map(|path| {
-                links
-                    .iter()
-                    .find_map(|(link_location, link_path)| {
-                        path.starts_with(link_location)
-                            .then_some(link_path.as_path())
-                    })
-                    .or_else(|| {
-                        current_path.and_then(|current_path| path.strip_prefix(current_path).ok())
-                    })
-                    .unwrap_or(path)
-            });
+            // a path below the target of a link designates the same file below the link
+            let paths: Vec<PathBuf> = event
+                .event
+                .paths
+                .iter()
+                .map(|path| {
+                    links
+                        .iter()
+                        .find_map(|(link_location, link_path)| {
+                            path.strip_prefix(link_location)
+                                .ok()
+                                .map(|rest| link_path.join(rest))
+                        })
+                        .or_else(|| {
+                            current_path.and_then(|current_path| {
+                                path.strip_prefix(current_path).ok().map(Path::to_path_buf)
+                            })
+                        })
+                        .unwrap_or_else(|| path.clone())
+                })
+                .collect();
+            let mut paths_iterator = paths.iter();
 
             if log::log_enabled!(log::Level::Trace) {
                 let event_display = match event.kind {
